@@ -23,16 +23,42 @@ RULE = ('one history per case on ONE live object of the family named by the gene
         'single request on a freshly constructed object. non-trivial = the history contains >= 2 requests of which '
         'at least one follows a state-changing step (a first read of a lazy attribute, an assignment, a mutator or '
         'a call); distinct by digest of (constructor inputs, request sequence)')
-CLASSES = ['bkg_none', 'bkg_below', 'bkg_inside', 'bkg_above']
+CLASSES = ['bkg_none', 'bkg_below', 'bkg_inside', 'bkg_above', 'radial_profile', 'curve_of_growth',
+           'aper_circle', 'aper_ellipse', 'aper_rect', 'aper_annulus',
+           'psfphot', 'psfphot_grouped', 'psfphot_finder', 'iterpsf',
+           'daofinder', 'iraffinder', 'starfinder', 'ellipse', 'gridded']
 MUST_REACH = ['photutils.background.background_2d:Background2D.background_mesh',
               'photutils.background.background_2d:Background2D.background_rms_mesh',
               'photutils.background.background_2d:Background2D._selective_filter',
-              'photutils.background.background_2d:Background2D._filter_grid']
+              'photutils.background.background_2d:Background2D._filter_grid',
+              'photutils.profiles.core:ProfileBase.normalize',
+              'photutils.profiles.core:ProfileBase.unnormalize',
+              'photutils.profiles.radial_profile:RadialProfile.data_profile',
+              'photutils.profiles.radial_profile:RadialProfile.gaussian_fit',
+              'photutils.profiles.curve_of_growth:CurveOfGrowth.profile',
+              'photutils.psf.photometry:PSFPhotometry._reset_results',
+              'photutils.psf.photometry:PSFPhotometry._prepare_init_params',
+              'photutils.psf.photometry:PSFPhotometry.__call__',
+              'photutils.psf.photometry:IterativePSFPhotometry.__call__',
+              'photutils.psf.photometry:ModelImageMixin.make_model_image',
+              'photutils.aperture.attributes:ApertureAttribute.__set__',
+              'photutils.aperture.attributes:ApertureAttribute._reset_lazyproperties',
+              'photutils.aperture.attributes:PixelPositions.__set__',
+              'photutils.aperture.attributes:ScalarAngleOrValue.__set__',
+              'photutils.aperture.core:PixelAperture.bbox',
+              'photutils.aperture.core:PixelAperture._centered_edges',
+              'photutils.psf.gridded_models:GriddedPSFModel._calc_interpolator',
+              'photutils.psf.gridded_models:GriddedPSFModel.copy',
+              'photutils.detection.starfinder:StarFinder._get_raw_catalog',
+              'photutils.detection.daofinder:DAOStarFinder._get_raw_catalog',
+              'photutils.detection.irafstarfinder:IRAFStarFinder._get_raw_catalog',
+              'photutils.isophote.ellipse:Ellipse.fit_image',
+              'photutils.isophote.ellipse:Ellipse.fit_isophote']
 ANCHOR_FILES = ['background/background_2d.py', 'profiles/core.py', 'profiles/radial_profile.py',
                 'profiles/curve_of_growth.py', 'psf/photometry.py', 'aperture/attributes.py', 'aperture/core.py',
                 'psf/gridded_models.py', 'detection/starfinder.py', 'detection/daofinder.py',
                 'detection/irafstarfinder.py', 'isophote/ellipse.py']
-MIN_NONTRIVIAL = {'quick': 400, 'thorough': 6000}
+MIN_NONTRIVIAL = {'quick': 100, 'thorough': 2000}
 ASSUMPTIONS = ['a freshly constructed object given copies of the same constructor arguments is the oracle '
                '(its own correctness is the business of the other properties)',
                'numpy/scipy/astropy (fitters, tables, units) are deterministic for identical inputs in one process']
@@ -45,13 +71,73 @@ def plan(tier):
 
 
 def selftest():
+    """Comparer facts + the live-vs-fresh machinery on a toy class with a planted stale cache."""
+    from pv import core
     O.selftest()
+
+    class Toy:
+        def __init__(self, r):
+            self.r = r
+
+        @property
+        def area(self):
+            if '_a' not in self.__dict__:
+                self._a = 3.0 * self.r ** 2
+            return self._a              # never invalidated: stale after re-assignment of r
+
+    case = core.Case('C09', 'quick', 0, 0, 0, 'selftest')
+    live = Toy(1.0)
+    assert O.compare(case, O.request(lambda: live.area), O.request(lambda: Toy(1.0).area), 't', {})
+    live.r = 2.0
+    assert not O.compare(case, O.request(lambda: live.area), O.request(lambda: Toy(2.0).area), 't', {})
+    assert case.violations and case.violations[0]['what'] == 't'
+    # an exception only the live object raises is a violation, one both raise is not
+    def boom():
+        raise ValueError('x')
+    assert not O.compare(case, O.request(boom, expected=(ValueError,)), O.request(lambda: 1), 't', {})
+    assert O.compare(case, O.request(boom, expected=(ValueError,)), O.request(boom, expected=(ValueError,)), 't', {})
 
 
 def run_case(case):
+    import time
+    t0 = time.process_time()
+    try:
+        _run_case(case)
+    finally:
+        case.note('ms:' + case.cls, int(1000 * (time.process_time() - t0)))
+        case.note('n:' + case.cls)
+
+
+def _run_case(case):
+    import os
+    # development aid: PV_C09_ONLY=<class> runs that family for every case (the run is then reported
+    # inconclusive because the other classes are missing, which is intended)
+    only = os.environ.get('PV_C09_ONLY')
+    if only:
+        case.cls = only
     cls = case.cls
     if cls.startswith('bkg_'):
         from pv.gen import c09_bkg
         c09_bkg.run(case, cls[4:])
+    elif cls in ('radial_profile', 'curve_of_growth'):
+        from pv.gen import c09_profiles
+        c09_profiles.run(case, 'RadialProfile' if cls == 'radial_profile' else 'CurveOfGrowth')
+    elif cls.startswith('aper_'):
+        from pv.gen import c09_apertures
+        c09_apertures.run(case, cls[5:])
+    elif cls in ('psfphot', 'psfphot_grouped', 'psfphot_finder', 'iterpsf'):
+        from pv.gen import c09_psfphot
+        c09_psfphot.run(case, {'psfphot': 'plain', 'psfphot_grouped': 'grouped', 'psfphot_finder': 'finder',
+                               'iterpsf': 'iterative'}[cls])
+    elif cls in ('daofinder', 'iraffinder', 'starfinder'):
+        from pv.gen import c09_finders
+        c09_finders.run(case, {'daofinder': 'DAOStarFinder', 'iraffinder': 'IRAFStarFinder',
+                               'starfinder': 'StarFinder'}[cls])
+    elif cls == 'ellipse':
+        from pv.gen import c09_ellipse
+        c09_ellipse.run(case)
+    elif cls == 'gridded':
+        from pv.gen import c09_gridded
+        c09_gridded.run(case)
     else:
         raise RuntimeError('unknown class ' + cls)
